@@ -304,7 +304,7 @@ def make_consumption_search(mido, use_queue, depth):
         return s
 
     return Search(build_checked, ops, apply, check, key, max_depth=depth,
-                  expand=expand)
+                  expand=expand, max_states=120000)
 
 
 def run():
